@@ -25,6 +25,8 @@ type Scenario struct {
 	PDBs    []PDBSpec      `json:"pdbs"`
 	// DaemonSets: DaemonSet objects (C06 scenarios; see c06.go)
 	DaemonSets []DSSpec `json:"daemonsets,omitempty"`
+	// Overlays: NodeOverlay objects present from the start (C18; options.nodeOverlay must be on, see x_frame.go)
+	Overlays []OverlaySpec `json:"overlays,omitempty"`
 	// T0: the clock value at which the cluster is complete and the first step runs. Nominations and
 	// other clock-dependent in-memory marks are applied on the way there, at their own instants.
 	T0    int    `json:"t0"`
@@ -37,6 +39,9 @@ type Options struct {
 	MinValuesPolicy string `json:"minValuesPolicy"` // "" = Strict
 	PreferIgnore    bool   `json:"preferIgnore"`
 	CapacityBuffer  bool   `json:"capacityBuffer"`
+	// NodeOverlay: the NodeOverlay feature gate; every component then gets the overlay-DECORATED cloud provider and the real
+	// nodeoverlay controller (on the undecorated provider) fills the instance type store, as in the operator (x_frame.go)
+	NodeOverlay bool `json:"nodeOverlay,omitempty"`
 	// Project: "" | "c06" (Cmd/QCmd additionally carry the SchedulingGuards-shaped cluster and claims, see c06.go)
 	Project string `json:"project,omitempty"`
 }
@@ -47,6 +52,16 @@ type DSSpec struct {
 	CPU   int               `json:"cpu"`
 	MemMi int               `json:"memMi"`
 	Sel   map[string]string `json:"sel,omitempty"` // nodeSelector of the pod template, short keys
+}
+
+// OverlaySpec: a NodeOverlay (C18). Capacity: extended resource name -> quantity; Price / PriceAdjustment as in the API ("" unset).
+type OverlaySpec struct {
+	Name            string            `json:"name"`
+	Weight          int               `json:"weight,omitempty"`
+	Requirements    []ReqSpec         `json:"requirements,omitempty"`
+	Price           string            `json:"price,omitempty"`
+	PriceAdjustment string            `json:"priceAdjustment,omitempty"`
+	Capacity        map[string]string `json:"capacity,omitempty"`
 }
 
 type OfferingSpec struct {
@@ -146,6 +161,9 @@ type NodeSpec struct {
 	ExpireAfter    int    `json:"expireAfter"` // -1 Never
 	// Taints: extra persistent taints on the Node (C06 scenarios)
 	Taints []TaintSpec `json:"taints,omitempty"`
+	// DropLabels: well-known labels the Node object LACKS (C18): hostname | zone | arch | os | ct | type (the kubelet has not
+	// set them yet / they were removed); the NodeClaim keeps its labels
+	DropLabels []string `json:"dropLabels,omitempty"`
 }
 
 type PodSpec struct {
@@ -228,6 +246,9 @@ type Step struct {
 	Value  string   `json:"value,omitempty"`
 	Pod    *PodSpec `json:"pod,omitempty"`
 	PDB    *PDBSpec `json:"pdb,omitempty"`
+	// Overlay: SetOverlay{overlay} creates or replaces a NodeOverlay, DeleteOverlay{value: name} removes one; both are followed
+	// by the nodeoverlay controller's reconcile (C18, x_frame.go)
+	Overlay *OverlaySpec `json:"overlay,omitempty"`
 	During []Step   `json:"during,omitempty"`
 	// SetOffering{type, zone, ct, price (1/1000, -1 keep), available}: one offering of the provider catalog changes
 	Type      string `json:"type,omitempty"`
